@@ -206,15 +206,21 @@ def StaysShutDown (s : St) : Prop :=
   ∀ (u : Nat) (U : Th), s.th[u]? = some U → U.kind = .userDisc → U.pc = .done → standing s U = true →
     s.io = none ∧ ∀ (i : Nat) (t : Th), s.th[i]? = some t → inWindow t = false
 
-/-- … and no worker thread is left in its loop (what `ShutdownFinal` asks of the run: `alive = []` once the stragglers
-have run out) -/
+/-- … and no worker thread is left in its loop -/
 def inLoop (t : Th) : Bool :=
   (t.kind == .txw && (t.pc == .tgate || t.pc == .tcheck || t.pc == .tgetq || t.pc == .tget || t.pc == .tproc || t.pc == .tsend))
   || (t.kind == .rxw && (t.pc == .rgate || t.pc == .rcheck || t.pc == .rio || t.pc == .rread || t.pc == .rhbq || t.pc == .rhb))
 
-def NoWorkerLeft (s : St) : Prop :=
+def NoWorkerInLoop (s : St) : Prop :=
   ∀ (u : Nat) (U : Th), s.th[u]? = some U → U.kind = .userDisc → U.pc = .done → standing s U = true →
     ∀ (i : Nat) (t : Th), s.th[i]? = some t → inLoop t = false
+
+/-- … which cannot hold at the very moment the `disconnect()` returns (a `connect()` of a user that had assigned `self.io`
+before the flag was set still registers its workers; they end by themselves when the rx thread finds `self.io` gone), so
+the clause is: the worker threads run out — left to themselves, after some number of steps none is alive -/
+def WorkersRunOut (cfg : Cfg) (s : St) : Prop :=
+  ∀ (u : Nat) (U : Th), s.th[u]? = some U → U.kind = .userDisc → U.pc = .done → standing s U = true →
+    ∃ n, workersAlive (runGreedy cfg n s) = []
 
 /-- a reconnect thread does not revoke a shutdown request: when it comes to `_shutdown.clear()` in `connect()` it finds
 itself registered and leaves the flag alone -/
